@@ -54,9 +54,12 @@ def skeletons(tier):
     for mpool in (False, True):
         out.append({"id": f"ranks2-bigvocab-pool{int(mpool)}", "fam": "ranks", "nranks": 2,
                     "params": {"pool": mpool, "big": 70 if tier == "quick" else 140}})
-    words = ["CN"] if tier == "quick" else ["CNM", "CCN", "NNM", "CN", "CM"]
-    for w in words:
-        out.append({"id": f"indep-{w}", "fam": "indep", "word": w, "params": {"nrot": 2 if tier == "quick" else 5}})
+    # nrot = number of rotations of the vocabulary's insertion order tried for the second numbering (x reversal): with
+    # nrot >= |vocabulary| - 1 every symbol receives id 0 (and the last id) in some numbering
+    words = [("CN", 2), ("C", 5), ("M", 5)] if tier == "quick" else [("CNM", 5), ("CCN", 5), ("NNM", 5), ("CN", 6), ("CM", 8),
+                                                                    ("C", 5), ("M", 5)]
+    for w, nrot in words:
+        out.append({"id": f"indep-{w}", "fam": "indep", "word": w, "params": {"nrot": nrot}})
     return out
 
 
@@ -326,20 +329,39 @@ def run_indep(ctx):
                              corr=100 + i))
         ev.append(TG.kernel(name, f"$k{i}_ts", f"$k{i}_dur", stream=7 + 13 * (i % 2), corr=100 + i, cat=cat))
     events = {0: ctx.val(ev)}
-    if ctx.mode != "sym":
-        return       # the relational obligation exists only in the symbolic world (one numbering natively)
-    tp = ctx.mods["hta.common.trace_parser"]
+    # both worlds: the parser's set() is replaced by a set with a chosen iteration order (natively the real parser
+    # module is patched the same way, so the second numbering of a counterexample is reproduced with real pandas)
+    if ctx.mode == "sym":
+        tp = ctx.mods["hta.common.trace_parser"]
+    else:
+        import hta.common.trace_parser as tp
     tp.__dict__["set"] = NDSet
+    try:
+        return _run_indep(ctx, events)
+    finally:
+        NDSet.forced = None
+        if ctx.mode != "sym":
+            tp.__dict__.pop("set", None)
+
+
+def _run_indep(ctx, events):
     results = []
-    orders = [(0, 0), (ctx.choose(ctx.params.get("nrot", 5)) + 1, ctx.choose(2))]
+    orders = [(0, 0), (ctx.choose_recorded(ctx.params.get("nrot", 5)) + 1, ctx.choose_recorded(2))]
     tabs = []
-    for o in orders:
+    for n, o in enumerate(orders):
         NDSet.forced = o
         try:
+            if ctx.mode != "sym":
+                import os
+                base = getattr(ctx, "_base_outdir", None) or ctx.outdir
+                ctx._base_outdir = base
+                ctx.outdir = os.path.join(base, f"numbering{n}")
             ta = ctx.open(events)
         finally:
             NDSet.forced = None
         tabs.append(list(ta.t.symbol_table.get_sym_table()))
+        if __import__("os").environ.get("VERIF_DEBUG"):
+            print("DEBUG order", o, tabs[-1], file=__import__("sys").stderr)
         kt, kb = ta.get_gpu_kernel_breakdown(visualize=False, num_kernels=2, include_memory_kernels=True)
         ql = ta.get_queue_length_time_series([0])
         ls = ta.get_cuda_kernel_launch_stats([0], visualize=False)
@@ -354,7 +376,7 @@ def run_indep(ctx):
             ctx.prove(a is None and b is None, f"indep:{k}:presence", None)
             continue
         _cmp_frames(ctx, a.reset_index() if k == "queue" else a, b.reset_index() if k == "queue" else b, f"indep:{k}")
-    if tabs[0] != tabs[1]:
+    if ctx.mode == "sym" and tabs[0] != tabs[1]:
         ctx.nontrivial(True)
 
 
